@@ -405,8 +405,12 @@ def selection(run, model, rule="C03.selection", rule_src="C03.selection-source")
                             if ct[1][0] == "attr" and ct[1][2] == "append":
                                 recv = ct[1][1]
                                 out = consumers.get(recv, "collected-unknown")
-                        if "init_func" in p.env and p.env["init_func"] != ("const", "None") and any(isinstance(nn.ast, ast.Assign) and any(isinstance(tg, ast.Name) and tg.id == "init_func" for tg in nn.ast.targets) for nn in p.nodes if nn.kind == "stmt"):
-                            out = "init"
+                        for nn in p.nodes:
+                            # ``<some local> = value`` : the constructor candidate is remembered
+                            if nn.kind == "stmt" and isinstance(nn.ast, ast.Assign) and len(nn.ast.targets) == 1 and isinstance(nn.ast.targets[0], ast.Name) and isinstance(nn.ast.value, ast.Name):
+                                vt = strip_sites(p.env.get(nn.ast.targets[0].id, ("x",)))
+                                if vt[0] == "call" and vt[1] == ("builtin", "getattr") and len(vt[2]) >= 2 and vt[2][0] == cls_p and name_of(vt[2][1]):
+                                    out = "init"
                         outs.add(out)
                     want = expected_selection(name_cls, vkind, hc, hs)
                     n_rows += 1
